@@ -126,8 +126,8 @@ func (p *c02) execute(res *fw.Result, scen *gen.Scenario, seed int64, mask uint6
 		if reference {
 			observeCommon(res, rec)
 		}
-		sp := c02sprint{session: string(rec.SessionAfter)}
-		sp.events = string(bytes.Join(rec.EventsJSON, []byte("\n")))
+		sp := c02sprint{session: normKnownNondet(string(rec.SessionAfter))}
+		sp.events = normKnownNondet(string(bytes.Join(rec.EventsJSON, []byte("\n"))))
 		sp.segments = string(bytes.Join(rec.SegmentsJSON, []byte("\n")))
 		switch {
 		case rec.Kind == "unreadable":
